@@ -281,6 +281,7 @@ def _inline_once(f, keep=None):
             x = parents.get(x)
         return x.lineno if x is not None else node.lineno
 
+    tree = None
     changed = False
     for name, d in cands.items():
         uses = [n for n in ast.walk(f) if isinstance(n, ast.Name) and n.id == name and isinstance(n.ctx, ast.Load)]
@@ -301,6 +302,19 @@ def _inline_once(f, keep=None):
             continue
         dl = loops_of(d)
         ok_all = True
+        # the definition has to dominate every read (otherwise substituting it
+        # would hide a read of a possibly unbound name)
+        if tree is None:
+            tree = FuncTree(f)
+        for u in uses:
+            us = u
+            while us is not None and not isinstance(us, ast.stmt):
+                us = parents.get(us)
+            if us is None or not dominates(tree, d, us):
+                ok_all = False
+                break
+        if not ok_all:
+            continue
         for u in uses:
             if u.lineno <= d.lineno:
                 ok_all = False
